@@ -147,7 +147,19 @@ type GhostVar struct {
 	Type string
 }
 
+// Owns: encapsulation claim — the listed fields are written only by the listed functions (checked syntactically on the SSA
+// of every function of the package). It is what makes an object invariant (assumed at method entry, proved at exit) sound.
+type Owns struct {
+	Pkg    string
+	Fields []string // "T.f"
+	Funcs  []string // expanded ssa names
+	Props  []string
+	File   string
+	Line   int
+}
+
 type ContractDB struct {
+	OwnsList   []*Owns
 	Funcs      map[string][]*FuncContract // several contracts per function are allowed when they serve different properties
 	FileErrs   map[string]error
 	SpecFuncs  map[string]*SpecFunc
@@ -640,7 +652,7 @@ var directiveKW = map[string]bool{
 	"func": true, "package": true, "props": true, "panics": true, "overflow": true, "requires": true, "ensures": true,
 	"modifies": true, "pure": true, "trusted": true, "loop": true, "let": true, "spec": true, "type": true,
 	"lemma": true, "axiom": true, "ghost": true, "effectfree": true, "inline": true, "assume": true, "pureparam": true,
-	"assert": true, "opt": true, "nobody": true,
+	"assert": true, "opt": true, "nobody": true, "owns": true,
 }
 
 type rawDirective struct {
@@ -698,6 +710,17 @@ func readDirectives(path string) ([]rawDirective, string, error) {
 		}
 	}
 	return out, pkgName, nil
+}
+
+// anchorColon finds the colon that ends an anchor: the first ':' followed by white space or '[' (so that
+// `call dynamic:core/vm.executionFunc: [label] …` splits after the callee name).
+func anchorColon(t string) int {
+	for i := 0; i < len(t); i++ {
+		if t[i] == ':' && (i+1 == len(t) || t[i+1] == ' ' || t[i+1] == '\t' || t[i+1] == '[') {
+			return i
+		}
+	}
+	return -1
 }
 
 func splitLabel(s string) (label, rest string) {
@@ -1039,7 +1062,7 @@ func (db *ContractDB) ParseFile(path string, pkgPath string) error {
 					t = "at " + strings.TrimPrefix(t, "after ")
 				}
 				t = strings.TrimSpace(t[3:])
-				j := strings.Index(t, ":")
+				j := anchorColon(t)
 				for j >= 0 && j+1 < len(t) && t[j+1] == ':' { // skip "::"
 					k := strings.Index(t[j+2:], ":")
 					if k < 0 {
@@ -1081,7 +1104,7 @@ func (db *ContractDB) ParseFile(path string, pkgPath string) error {
 			case strings.HasPrefix(t, "at "):
 				t = strings.TrimPrefix(t, "at ")
 			}
-			j := strings.Index(t, ":")
+			j := anchorColon(t)
 			if j < 0 {
 				return fail(d, fmt.Errorf("assert at ANCHOR: [label] expr"))
 			}
@@ -1093,6 +1116,30 @@ func (db *ContractDB) ParseFile(path string, pkgPath string) error {
 				return fail(d, err)
 			}
 			cur.Asserts = append(cur.Asserts, GhostAt{Anchor: anchor, When: when, Assert: &Clause{Label: label, E: e, Src: rest, File: path, Line: d.line, Props: props}})
+		case "owns":
+			// owns T.f, T.g by F1, (*T).M props C02
+			t := d.text
+			var props []string
+			if k := strings.Index(t, " props "); k >= 0 {
+				for _, q := range strings.Split(t[k+7:], ",") {
+					if q = strings.TrimSpace(q); q != "" {
+						props = append(props, q)
+					}
+				}
+				t = t[:k]
+			}
+			k := strings.Index(t, " by ")
+			if k < 0 {
+				return fail(d, fmt.Errorf("owns T.f, … by F, … props CNN"))
+			}
+			ow := &Owns{Pkg: pkgPath, Props: props, File: path, Line: d.line}
+			for _, f := range strings.Split(t[:k], ",") {
+				ow.Fields = append(ow.Fields, strings.TrimSpace(f))
+			}
+			for _, f := range splitTop(t[k+4:], ',') {
+				ow.Funcs = append(ow.Funcs, expandFuncKey(strings.TrimSpace(f), pkgPath))
+			}
+			db.OwnsList = append(db.OwnsList, ow)
 		case "effectfree":
 			for _, f := range strings.Fields(d.text) {
 				db.EffectFree = append(db.EffectFree, f)
